@@ -129,7 +129,8 @@ class FileProxy:
 class World:
     """One scenario execution: root directory, event log, optional scheduler and fault."""
 
-    def __init__(self, root, *, observe=None, yield_ops=None, fault=None, fault_ops=None, wrap_files=True):
+    def __init__(self, root, *, observe=None, yield_ops=None, fault=None, fault_ops=None, wrap_files=True,
+                 yield_pred=None):
         self.root = os.path.realpath(root)
         self.rootb = os.fsencode(self.root)
         self.events = []
@@ -142,6 +143,8 @@ class World:
         self.fds = {}                   # fd -> path
         self.yield_ops = yield_ops      # set of ops that are scheduling points (None = all)
         self.wrap_files = wrap_files
+        self.yield_pred = yield_pred    # callable(op, path) -> bool: further restricts scheduling points
+        self.fault_pred = None          # callable(op, path) -> bool: further restricts fault points
         self.in_call = False
 
     # -- path helpers
@@ -170,7 +173,8 @@ class World:
         a = _cur_actor()
         if a is None or self.in_call:
             return fn()
-        if self.sched is not None and (self.yield_ops is None or op in self.yield_ops):
+        if self.sched is not None and (self.yield_ops is None or op in self.yield_ops) \
+                and (self.yield_pred is None or self.yield_pred(op, path)):
             self.sched.yield_point(a, (op, path))
         ev = {"a": a, "op": op, "p": path}
         if path2 is not None:
@@ -179,6 +183,8 @@ class World:
             ev.update(extra)
         k = self.ncalls.get(a, 0)
         eligible = (op in self.MUTATING) if self.fault_ops is None else (op in self.fault_ops)
+        if eligible and self.fault_pred is not None and not self.fault_pred(op, path):
+            eligible = False
         if eligible:
             self.ncalls[a] = k + 1
         flt = self.fault
@@ -407,7 +413,7 @@ class Scheduler:
     scheduling decision; after the prefix the policy is non-preemptive (keep running the
     current actor while enabled, else the lowest enabled id)."""
 
-    def __init__(self, world: World, actors: dict, prefix=(), rng=None, p_switch=0.0):
+    def __init__(self, world: World, actors: dict, prefix=(), rng=None, p_switch=0.0, collect="exc"):
         self.world = world
         world.sched = self
         self.actors = actors
@@ -419,6 +425,7 @@ class Scheduler:
         self.pending = {}
         self.rng = rng
         self.p_switch = p_switch
+        self.collect = collect
 
     def yield_point(self, actor, desc):
         self.pending[actor] = desc
@@ -431,20 +438,27 @@ class Scheduler:
                 with warnings.catch_warnings():
                     warnings.simplefilter("ignore")
                     res.value = fn()
+                self.world.note("ret", exc=None, value=_short(res.value))
             except BaseException as e:   # includes injected KeyboardInterrupt
                 if isinstance(e, greenlet.GreenletExit):
                     raise
                 res.exc = type(e).__name__
                 res.exc_msg = str(e)[:200]
+                # the operation's return is observed while the exception (and with it every
+                # frame and handle of the failed operation) is still alive: what a caller's
+                # `except` block would see, before any finaliser has run
+                self.world.note("ret", exc=res.exc, value=None)
                 e.__traceback__ = None
                 del e
             finally:
-                # run finalizers (e.g. _GitFile.__del__) inside the owning actor
-                with warnings.catch_warnings():
-                    warnings.simplefilter("ignore")
-                    gc.collect()
+                # run finalizers (e.g. _GitFile.__del__) inside the owning actor.  Reference counting
+                # finalises everything that is not in a cycle as soon as the frame dies; the full
+                # collection is only needed when an exception (traceback cycles) was involved.
+                if self.collect == "always" or (self.collect == "exc" and res.exc):
+                    with warnings.catch_warnings():
+                        warnings.simplefilter("ignore")
+                        gc.collect()
                 res.done = True
-                self.world.note("ret", exc=res.exc, value=_short(res.value))
         return body
 
     def run(self, max_steps=20000):
